@@ -150,6 +150,21 @@ func (w *world) checkRead(st *step) {
 		if nIdx > 0 && nPri > 0 && st.pre[0].missFrom(ginv) {
 			w.r.Probe("mixed-group-primary-and-index-on-uncached-row")
 		}
+		// readers of one key whose destination objects are of different Go types
+		var seen [len(destNames)]bool
+		nTypes := 0
+		for _, c := range st.readers {
+			if c.kind != rGet && !seen[c.dt] {
+				seen[c.dt] = true
+				nTypes++
+			}
+		}
+		if nTypes > 1 {
+			w.r.Probe("read-group-with-different-destination-types")
+			if st.pre[0].missFrom(ginv) {
+				w.r.Probe("read-group-with-different-destination-types-on-uncached-key")
+			}
+		}
 	}
 	for _, c := range st.readers {
 		// a context error is on the account of a context that ended while the call (or a call that
@@ -169,10 +184,12 @@ func (w *world) checkRead(st *step) {
 		switch c.out {
 		case oRow:
 			switch {
-			case ent.ver != 0 && sameRow(c.got, cur):
+			case c.shape != "":
+				w.fail("read-mismatch:garbage-row", "call %d (%s into a %s) returned no error and its destination %s", c.id, w.rn(c), destNames[c.dt], c.shape)
+			case ent.ver != 0 && c.same(c.got, cur):
 			case ent.ver == 0 && !stale:
 				w.fail("read-mismatch:row-for-absent", "call %d (%s) returned row %+v, the database holds no such row", c.id, w.rn(c), c.got)
-			case c.got.Ver != 0 && inHist(ent, c.got.Ver) && sameRow(c.got, w.rowAt(ent, c.got.Ver)):
+			case c.got.Ver != 0 && inHist(ent, c.got.Ver) && c.same(c.got, w.rowAt(ent, c.got.Ver)):
 				if !stale {
 					w.fail("read-mismatch:stale-row", "call %d (%s) returned version %d, the database holds version %d", c.id, w.rn(c), c.got.Ver, ent.ver)
 				} else {
@@ -243,6 +260,9 @@ func (w *world) checkRead(st *step) {
 			for _, x := range st.execs {
 				if x.caller != c && x.s > c.inv && x.e < c.ret {
 					w.r.Probe("singleflight-shared-result")
+					if x.caller.dt != c.dt {
+						w.r.Probe("singleflight-shared-result-across-destination-types")
+					}
 					// ... and what the caller that ran the query did with its own object afterwards
 					if l := x.caller; l.returned && l.ret < c.ret {
 						if l.edit != 0 {
@@ -307,6 +327,9 @@ func (w *world) checkRead(st *step) {
 				if c.out == oRow && (c.prefill || (c.chained && c.reuse == 1)) {
 					w.r.Probe("cache-hit-decoded-onto-non-zero-destination")
 				}
+				if c.out == oRow && c.dt != ent.loadDt && n[qPrimary] == 0 {
+					w.r.Probe("cache-hit-of-entry-written-through-another-destination-type")
+				}
 			}
 			w.r.Probe("hit-" + kindOf(p))
 			if p.val == placeholder {
@@ -348,6 +371,12 @@ func (w *world) checkRead(st *step) {
 		}
 		if gret.Sub(firstOK[kind].te) < w.minTTL(base) {
 			w.fail("repeated-load-within-expiry", "key %s: %d successful database queries during one group of reads lasting %v (min expiry %v)", w.keyOf(ent, kind), nOK[kind], gret.Sub(ginv), w.minTTL(base))
+		}
+	}
+	// (the type through which the row's primary entry was written last: for the probes only)
+	for kind := 0; kind < 2; kind++ {
+		if x := firstOK[kind]; x != nil && x.ver != 0 {
+			ent.loadDt = x.caller.dt
 		}
 	}
 	// (4) a failed query leaves nothing behind
@@ -516,6 +545,7 @@ func (w *world) checkWrite(st *step) {
 			w.fail("store-error-not-reported:set", "%s returned nil although every SET failed (%s)", stepKindNames[st.kind], st.faultDesc())
 		}
 		if st.err == nil {
+			ent.loadDt = dRow
 			if st.kind == kSetCacheExp && st.expire > ent.customTTL {
 				ent.customTTL = st.expire
 			}
@@ -717,7 +747,16 @@ func (w *world) invariants() {
 				kind = "index"
 			}
 			if s.ttl <= 0 {
-				w.fail("persistent-key", "key %s (%q) has no TTL", k, s.val)
+				base := w.e
+				if s.val == placeholder {
+					base = w.nfe
+				}
+				class := "persistent-key"
+				if base == time.Nanosecond {
+					// its own scenario class: the smallest positive expiry (see meta.json, assumptions)
+					class += ":expiry-1ns"
+				}
+				w.fail(class, "key %s (%q) has no TTL (configured expiry of this kind of entry: %v)", k, s.val, base)
 				continue
 			}
 			if s.ttl > bound {
